@@ -50,6 +50,7 @@ type lrDump struct {
 	Nonterminals []string            `json:"nonterminals"`
 	Symbols      []string            `json:"symbols"`
 	StringLits   []string            `json:"stringLits"`
+	LexTokenIds  []string            `json:"lexTokenIds"`
 	Prods        []lrProd            `json:"prods"`
 	First        map[string][]string `json:"first"`
 	States       []lrState           `json:"states"`
@@ -97,6 +98,7 @@ func cmdLR(_ *bufio.Reader, out *bufio.Writer, args []string) {
 	}
 	g := grammar.(*ast.Grammar)
 	gSymbols := symbols.NewSymbols(g)
+	d.LexTokenIds = g.LexPart.TokenIds()
 	gSymbols.Add(g.LexPart.TokenIds()...)
 	g.LexPart.UpdateStringLitTokens(gSymbols.ListStringLitSymbols())
 	tokenMap := outToken.NewTokenMap(gSymbols.ListTerminals())
